@@ -94,7 +94,9 @@ func (s *StoresStats) FilterUnhealthyStore(cluster core.StoreSetInformer) {
 	defer s.Unlock()
 	for storeID := range s.rollingStoresStats {
 		store := cluster.GetStore(storeID)
-		if store.IsTombstone() || store.IsUnhealthy() || store.IsPhysicallyDestroyed() {
+		// the record of a tombstone store may have been removed (RemoveTombStoneRecords)
+		// after its statistics entry was re-created by a late write of that store.
+		if store == nil || store.IsTombstone() || store.IsUnhealthy() || store.IsPhysicallyDestroyed() {
 			delete(s.rollingStoresStats, storeID)
 		}
 	}
